@@ -175,6 +175,13 @@ theorem step_inv (d : Settings) (s : St) (op : Op) (hi : Inv s) : Inv (step d s 
     | ok s' => exact setitem_inv s s' _ _ hi h
     | error e => exact hi
   | rate r t n l => exact rate_inv _ _ _ _ _ hi
+  | emod =>
+    simp only [step, emod]
+    split
+    · exact hi
+    · split
+      · exact hi
+      · exact ⟨hi.current, hi.cols⟩
 
 /-- **C03, every history**: after any finite sequence of preprocessing calls, fits with any
 keyword arguments, direct edits of fit settings, ratings and operations that raise, the visible
@@ -363,6 +370,7 @@ def plainOp : Op → Bool
   | .fit kw _ _ => kw.all (fun p => !ppKey p.1)
   | .set k _ => !ppKey k
   | .rate _ _ _ _ => true
+  | .emod => true
 
 theorem applyKw_colsInv (kw : List (String × V)) (s : St) (hk : ∀ p ∈ kw, ppKey p.1 = false)
     (hc : ColsInv s) : ColsInv (applyKw s kw).1 := by
@@ -519,6 +527,13 @@ theorem step_colsInv (d : Settings) (s : St) (op : Op) (hop : plainOp op = true)
     | error e => exact hc
   | rate r t n l =>
     simp only [step, rate]
+    split
+    · exact hc
+    · split
+      · exact hc
+      · exact hc
+  | emod =>
+    simp only [step, emod]
     split
     · exact hc
     · split
